@@ -3,7 +3,7 @@
 
    PART 1 — ingestion sub-machine (C14): Dispatcher.run starts W = min(max(GOMAXPROCS/2,2),8) goroutines that all
    receive from ONE subscription channel (filled by provider/mem Put in submission order) and call routeAlert ->
-   groupAlert -> aggrGroup.insert -> store.Alerts.SetIfNotOlder (before fix d822580: store.Alerts.Set).
+   groupAlert -> aggrGroup.insert -> store.Alerts.SetIfNotOlder (before fix dd37f22: store.Alerts.Set).
    A worker has two atomic steps: Recv (dequeue the head of the FIFO into its private slot) and Insert (route the
    held alert and set it into every group it routes to). A schedule is a list of worker ids; an id that is not a
    worker, or a Recv on an empty queue, is a no-op.
